@@ -300,6 +300,9 @@ def run(rep):
         for plan in ([], [4096] * (len(data) // 4096 + 2), [65536] * (len(data) // 65536 + 2)):
             rcases.append(readcore.read_case(data, source=(0,), rplan=plan, consume=(0, 4096, 0)))
             meta.append((name, "crafted", plan[0] if plan else 0, (0, 4096, 0)))
+    for l in vlib.load_corpus("C01-readall"):
+        rcases.append(l)
+        meta.append(("corpus", "kept", 0, (0, 0, 0)))
     # every reference archive of the suite once, intact, through 512-byte callback blocks (one header block per
     # read: pointers into the previous block die at once) - the mutation sweep above only samples the corpus in the quick tier
     seen_ref = set(n for n, _ in arcs)
